@@ -343,6 +343,20 @@ def r5_groups_obey(ctx):
         good = good and N.key(pre[0].slice.upper) in ("m - num_elected", "-num_elected + m") or (good and re.fullmatch(r"-?\w+ [-+] \w+", N.key(pre[0].slice.upper)) is not None)
     ctx.check(bool(good), f, st, "resolution split prefix->elected, suffix->remaining at one point", where,
               "the tiebreak resolution is not split at a single point into elected prefix / remaining suffix")
+    # the tied group is taken back out (pop + count restored) before the split
+    if T is not None:
+        blk = pm[st]
+        seq = blk.orelse if st in getattr(blk, "orelse", []) else blk.body
+        before = [astx.u(x) for x in seq[: seq.index(st)]]
+        cnt = None
+        for x in seq[: seq.index(st)]:
+            if isinstance(x, ast.AugAssign) and isinstance(x.op, ast.Sub) and isinstance(x.target, ast.Name):
+                cnt = x
+        tied = astx.u(calls[0].args[0]) if calls[0].args else ""
+        good = any(b in ("elected.pop(-1)", "elected.pop()") for b in before) and cnt is not None and astx.u(cnt.value) == f"len({tied})" \
+            and N.key(pre[0].slice.upper) in (f"m - {cnt.target.id}", f"-{cnt.target.id} + m") if (pre and cnt is not None) else False
+        ctx.check(bool(good), f, st, "the straddling group is removed from elected and from the count before its resolution is split", str(before),
+                  f"statements before the tiebreak are {before}; the tied group must be popped and its size subtracted so that m - count seats remain")
     # remaining continues with the groups after the tied one
     ext = [n for n in astx.walk_own(f.node) if isinstance(n, ast.AugAssign) and isinstance(n.op, ast.Add)
            and isinstance(astx.strip_wrappers(n.value), ast.Subscript) and isinstance(astx.strip_wrappers(n.value).slice, ast.Slice)
@@ -367,5 +381,35 @@ RULES = [
     ("C10.R2", r2_only_in_tie, 6, "every tiebreak_set call is dominated by a tie test on its argument (or the overshoot test)"),
     ("C10.R3", r3_recorded, 10, "every resolution flows, keyed by the tied set, into the recorded state's tiebreaks"),
     ("C10.R4", r4_fallback, 7, "scored tiebreaks use the right score restricted to the tie; random fallback only among still-tied"),
-    ("C10.R5", r5_groups_obey, 3, "selector splits the resolution prefix/suffix at one point; untied exit shape"),
+    ("C10.R5", r5_groups_obey, 4, "selector splits the resolution prefix/suffix at one point; untied exit shape"),
+]
+
+
+UT = "src/votekit/utils.py"
+STV = "src/votekit/elections/election_types/ranking/stv.py"
+PL = "src/votekit/elections/election_types/ranking/plurality.py"
+BO = "src/votekit/elections/election_types/ranking/borda.py"
+RD = "src/votekit/elections/election_types/ranking/random_dictator.py"
+TT = "src/votekit/elections/election_types/ranking/top_two.py"
+FAULTS = [
+    ("random draw in plurality", [(PL, "        new_profile = remove_cand([c for s in elected for c in s], profile)", "        import random\n        random.shuffle(list(elected))\n        new_profile = remove_cand([c for s in elected for c in s], profile)")], "C10.R1"),
+    ("score function jitters", [(UT, "    if to_float:\n        return {c: float(v) for c, v in mentions.items()}", "    if to_float:\n        return {c: float(v) + random.random() * 0 for c, v in mentions.items()}")], "C10.R1"),
+    ("stv tiebreak without tie test", [(STV, "            if len(lowest_fpv_cands) > 1:\n                tiebroken_ranking = tiebreak_set(", "            if len(lowest_fpv_cands) > 0:\n                tiebroken_ranking = tiebreak_set(")], "C10.R2"),
+    ("tiebroken_ranking breaks singletons too", [(UT, "        if len(s) > 1:\n            tiebroken = tiebreak_set(s, profile, tiebreak)", "        if len(s) >= 1:\n            tiebroken = tiebreak_set(s, profile, tiebreak)")], "C10.R2"),
+    ("stv elimination tiebreak not recorded", [(STV, "                tiebreaks = {lowest_fpv_cands: tiebroken_ranking}\n", "")], "C10.R3"),
+    ("plurality drops tie record", [(PL, "                tiebreaks = {tie_resolution[0]: tie_resolution[1]}", "                tiebreaks = {}")], "C10.R3"),
+    ("borda records under wrong key", [(BO, "                tiebreaks = {tie_resolution[0]: tie_resolution[1]}", "                tiebreaks = {tie_resolution[1][0]: tie_resolution[1]}")], "C10.R3"),
+    ("RD tiebreak not recorded", [(RD, "            tiebreaks = {random_ballot.ranking[0]: tiebroken_ranking}\n", "            tiebreaks = {}\n")], "C10.R3"),
+    ("toptwo drops sub-election tiebreaks", [(TT, "            tiebreaks = plurality.election_states[-1].tiebreaks", "            tiebreaks = {}")], "C10.R3"),
+    ("borda code uses first place", [(UT, "        if tiebreak == \"borda\":\n            tiebreak_scores = borda_scores(profile)", "        if tiebreak == \"first_place\":\n            tiebreak_scores = borda_scores(profile)")], "C10.R4"),
+    ("tiebreak scores not restricted", [(UT, "            c: Fraction(score) for c, score in tiebreak_scores.items() if c in r_set", "            c: Fraction(score) for c, score in tiebreak_scores.items()")], "C10.R4"),
+    ("fallback always random", [(UT, "    if any(len(s) > 1 for s in new_ranking):\n        print(", "    if any(len(s) >= 1 for s in new_ranking):\n        print(")], "C10.R4"),
+    ("fallback re-breaks with same rule", [(UT, "            new_ranking, profile=profile, tiebreak=\"random\"", "            new_ranking, profile=profile, tiebreak=tiebreak")], "C10.R4"),
+    ("selector split points differ", [(UT, "                remaining = list(tiebroken_ranking[(m - num_elected) :])", "                remaining = list(tiebroken_ranking[(m - num_elected + 1) :])")], "C10.R5"),
+    ("selector forgets to take the tied group out", [(UT, "                elected.pop(-1)\n", "")], "C10.R5"),
+    ("selector remaining skips a group", [(UT, "                    remaining += list(ranking[(i + 1) :])", "                    remaining += list(ranking[(i + 2) :])")], "C10.R5"),
+    ("tiebroken_ranking does not record", [(UT, "            tied_dict[s] = tiebroken\n", "")], "C10.R4"),
+]
+BENIGN = [
+    ("tie test flipped", [(STV, "            if len(lowest_fpv_cands) > 1:\n                tiebroken_ranking = tiebreak_set(", "            if 1 < len(lowest_fpv_cands):\n                tiebroken_ranking = tiebreak_set(")]),
 ]
